@@ -182,7 +182,7 @@ Qed.
 Definition storing (g : rule) : bool :=
   match g with
   | RPol PPython | RPol (PAny _) | RPol (PTyped _ _) | RPol (PReadOnly _) | RDunder
-  | RPol (PMap _ _) | RPol (PShadow _) => true
+  | RPol (PMap _ _) | RPol (PShadow _) | RPol PList => true
   | _ => false
   end.
 
@@ -304,7 +304,7 @@ Section Run.
     class_ok (fst d) (o_out ob) = true /\ value_ok (fst d) (o_out ob) = true /\
     stored_ok (snd d) (o_stored ob) = true.
   Proof.
-    intros s n p g v [->|[-> ->]]; [destruct p as [ |d| |d|c|k|k d|m d|m]|]; simpl; try (fin; fail).
+    intros s n p g v [->|[-> ->]]; [destruct p as [ |d| |d|c|k|k d|m d|m| ]|]; simpl; try (fin; fail).
     - (* ReadOnly *)
       destruct (negb (Z.eqb d VUndef)); simpl; [fin|].
       unfold defined. destruct (assoc n (s_od s)) as [w|] eqn:E; [destruct (Z.eqb w VUndef)|]; fin.
@@ -312,6 +312,7 @@ Section Run.
     - (* Event *)
       destruct k as [k|]; [destruct (validate k v)|]; fin.
     - destruct (Z.eqb v VUndef); [|destruct (validate k v)]; fin.
+    - destruct (Z.eqb v VUndef); fin.
   Qed.
 
   Lemma delattr_ok : forall s n p g, rel g p ->
@@ -764,13 +765,23 @@ Section Run.
     assert (Ei' : l_itd ln = itd0) by exact Ei.
     assert (Eln : ln = mkL (l_itd ln) (l_od ln)) by (destruct ln; reflexivity).
     rewrite Eln, Ei'. apply Inv_od_ext with (lod := od0); [rewrite El0; exact H0|].
-    intro k. unfold ln, law_next, out. cbn [snd o_stored o_shadow o_base l_od]. rewrite <- Eod0.
-    assert (Hod' : forall m, assoc m od0 = assoc m (s_od s'))
-      by (intro m; rewrite Eod0; unfold resync; apply Hod).
-    assert (E2 : forall k, assoc k (resync (op_name o ++ [US]) (assoc (op_name o ++ [US]) (s_od s')) od0) = assoc k od0)
-      by (apply resync_same; apply Hod').
-    destruct (ends_us (op_name o)); [|apply E2].
-    rewrite resync_same; [apply E2|]. rewrite E2. apply Hod'.
+    unfold ln, law_next, out. cbn [snd o_stored o_shadow o_base o_out l_od].
+    match goal with |- context [adel (_ ++ items_suffix) ?B] => set (b := B) end.
+    assert (Tail : forall k, assoc k b = assoc k od0).
+    { intro k. unfold b. rewrite <- Eod0.
+      assert (Hod' : forall m, assoc m od0 = assoc m (s_od s'))
+        by (intro m; rewrite Eod0; unfold resync; apply Hod).
+      assert (E2 : forall k, assoc k (resync (op_name o ++ [US]) (assoc (op_name o ++ [US]) (s_od s')) od0) = assoc k od0)
+        by (apply resync_same; apply Hod').
+      destruct (ends_us (op_name o)); [|apply E2].
+      rewrite resync_same; [apply E2|]. rewrite E2. apply Hod'. }
+    intro k. destruct o as [n|n v|n|n q|n]; try apply Tail.
+    destruct x; try apply Tail. unfold found_trait. cbn [op_name].
+    rewrite (inv_itd _ _ HI). destruct (assoc n (s_itd s)) as [p|] eqn:Ea.
+    - pose proof (plain_assoc _ _ _ P3 Ea) as Hp. destruct p; try discriminate Hp; apply Tail.
+    - destruct (model_rule n) as [p| |] eqn:Em; try apply Tail.
+      assert (Hp : plainp p = true) by (eapply model_rule_plain; eauto; left; exact Em).
+      destruct p; try discriminate Hp; apply Tail.
   Qed.
 
   Lemma step_ok : forall s ls o, Inv s ls -> clean_step s o = true ->
@@ -1109,12 +1120,13 @@ Section Clauses.
   Proof. intros s n p. destruct p; reflexivity. Qed.
   Lemma setattr_itd : forall s n p v, s_itd (fst (setattr s n p v)) = s_itd s.
   Proof.
-    intros s n p v. destruct p as [ |d| |d|c|k|k d|m d|m]; simpl; auto.
+    intros s n p v. destruct p as [ |d| |d|c|k|k d|m d|m| ]; simpl; auto.
     - destruct (negb (Z.eqb d VUndef)); [reflexivity|].
       destruct (assoc n (s_od s)) as [w|]; [destruct (Z.eqb w VUndef)|]; reflexivity.
     - destruct k as [k|]; [destruct (validate k v)|]; reflexivity.
     - destruct (Z.eqb v VUndef); [|destruct (validate k v)]; reflexivity.
     - destruct (Z.eqb v VUndef); [|destruct (zassoc v m)]; reflexivity.
+    - destruct (Z.eqb v VUndef); reflexivity.
   Qed.
   Lemma delattr_itd : forall s n p, s_itd (fst (delattr s n p)) = s_itd s.
   Proof. intros s n p. destruct p; simpl; auto. destruct (amem n (s_od s)); reflexivity. Qed.
@@ -1775,7 +1787,8 @@ Lemma remove_mapped_clears : forall pt s n m d,
   assoc n (s_itd s') = None /\ assoc (n ++ [US]) (s_itd s') = None /\
   assoc n (s_od s') = None /\ assoc (n ++ [US]) (s_od s') = None.
 Proof.
-  intros pt s n m d Hn Hs. simpl. rewrite Hn. simpl mapped_of. cbv iota.
+  intros pt s n m d Hn Hs. simpl. rewrite Hn.
+  change (fold_left rem1 (map fst (subs n (PMap m d))) s) with (rem1 s (n ++ [US])).
   assert (Ne : name_eqb (n ++ [US]) n = false) by (rewrite name_eqb_sym; apply name_app_neq).
   set (s1 := rem1 s (n ++ [US])).
   assert (F : assoc n (s_itd s1) = Some (PMap m d) /\ assoc (n ++ [US]) (s_itd s1) = None /\
@@ -1798,4 +1811,40 @@ Lemma remove_mapped_restores_class_rule : forall ct0 pt s n m d,
 Proof.
   intros ct0 pt s n m d Hn Hs s'. destruct (remove_mapped_clears pt s n m d Hn Hs) as (_ & A & B & C & D).
   fold s' in A, B, C, D. unfold gov. rewrite A, B. auto.
+Qed.
+
+(* List traits (has_items): the name_items event trait comes and goes with the trait *)
+Lemma name_app_neq2 : forall (n suf : name), suf <> [] -> name_eqb n (n ++ suf) = false /\ name_eqb (n ++ suf) n = false.
+Proof.
+  intros n suf H. assert (n <> n ++ suf).
+  { intro E. apply (f_equal (@length Z)) in E. rewrite app_length in E. destruct suf; [congruence|simpl in E; lia]. }
+  split; apply name_eqb_neq; congruence.
+Qed.
+
+Lemma add_list_installs : forall pt s n,
+  let s' := fst (step pt s (OAdd n PList)) in
+  assoc n (s_itd s') = Some PList /\
+  assoc (n ++ items_suffix) (s_itd s') = Some (PEvent (Some VNoneOnly)) /\ s_od s' = s_od s.
+Proof.
+  intros pt s n. simpl. destruct (name_app_neq2 n items_suffix) as [N1 N2]; [discriminate|].
+  rewrite !assoc_aset, name_eqb_refl, N1, name_eqb_refl. auto.
+Qed.
+
+Lemma remove_list_clears : forall pt s n,
+  assoc n (s_itd s) = Some PList ->
+  let s' := fst (step pt s (ORem n)) in
+  o_out (snd (step pt s (ORem n))) = Val 1 /\
+  assoc n (s_itd s') = None /\ assoc (n ++ items_suffix) (s_itd s') = None /\ assoc n (s_od s') = None.
+Proof.
+  intros pt s n Hn. simpl. rewrite Hn.
+  change (fold_left rem1 (map fst (subs n PList)) s) with (rem1 s (n ++ items_suffix)).
+  destruct (name_app_neq2 n items_suffix) as [N1 N2]; [discriminate|].
+  set (s1 := rem1 s (n ++ items_suffix)).
+  assert (F : assoc n (s_itd s1) = Some PList /\ assoc (n ++ items_suffix) (s_itd s1) = None).
+  { unfold s1, rem1. destruct (assoc (n ++ items_suffix) (s_itd s)) as [q|] eqn:Eq; simpl.
+    - rewrite !assoc_adel, N2, name_eqb_refl. auto.
+    - destruct (amem (n ++ items_suffix) (s_ctd s)); simpl; auto. }
+  destruct F as (F1 & F2).
+  unfold rem1 at 1 2 3 4. unfold amem. rewrite F1. simpl.
+  rewrite !assoc_adel, name_eqb_refl, N1, F2. auto.
 Qed.
